@@ -114,7 +114,7 @@ def run(ctx):
 
     for plan, mres in zip(plans, model):
         d, flav, ems, enums, kname, kc, shape, size, lo, n, box = plan
-        m_wind, m_ravel, m_size = mres
+        (m_wind, m_ravel), m_size = mres
         case = {'family': d.family, 'label': d.spec['label'], 'kind': kname, 'shape': shape}
         ctx.case((d.family, str(expected_shapes(d)), kname), shape is not None and size >= 2,
                  sample={'dataset': d.spec['label'], 'kind': kname, 'shape': shape, 'linear_range': [lo, lo + n],
